@@ -78,6 +78,9 @@ structure Inst where
   /-- an injected state that no history from `Default` reaches (a partially filled tap ring): until the next reset
   only the model correspondence applies, not the history-based specification clauses -/
   nospec : Bool := false
+  /-- has produced an output of its own since it was constructed / copied (a copy inherits `last`, which `cached()`
+  needs, but two instances are only compared on outputs of their own) -/
+  own : Bool := true
 
 /-- first stage of a source pipe: an adapter tree, or a scripted source that may answer `none` (an end marker) and
 later items again (not fused) — the pipe must poll it on every pull and add no state of its own -/
@@ -504,7 +507,7 @@ def stepFilterOp (d : DState) (op : String) (toks impl : List String) : Option (
         | none => if y.any (fun v => match v with | .err => true | _ => false) then []
                   else [clauseP "no-panic" false (renderOut (some y))]
       let d := (stepFlags inst.st st' hist).foldl DState.flag d
-      let d := d.put id { inst with st := st', hist := hist, last := some implOut }
+      let d := d.put id { inst with st := st', hist := hist, last := some implOut, own := true }
       some (report d op { model := renderOut (some y), impl := implS, clauses := clauses, kind := kindName inst.st })
   | ["acc", id, which] => do
     let id ← id.toNat?
@@ -533,11 +536,11 @@ def stepFilterOp (d : DState) (op : String) (toks impl : List String) : Option (
     some (report d op { model := "ok", impl := implS })
   | ["clone", id, nid] => do
     let inst ← d.get (← id.toNat?)
-    let d := (d.put (← nid.toNat?) inst).flag "clone"
+    let d := (d.put (← nid.toNat?) { inst with own := false }).flag "clone"
     some (report d op { model := "ok", impl := implS })
   | ["gutsrt", id, nid] => do
     let inst ← d.get (← id.toNat?)
-    let d := (d.put (← nid.toNat?) inst).flag "gutsrt"
+    let d := (d.put (← nid.toNat?) { inst with own := false }).flag "gutsrt"
     some (report d op { model := "ok", impl := implS })
   | ["fresh", id, nid] => do
     -- a newly constructed instance with the configuration of `id`
@@ -569,13 +572,20 @@ def stepFilterOp (d : DState) (op : String) (toks impl : List String) : Option (
     let sel : List V → List V := match rest with
       | [k] => fun l => (l[k.toNat?.getD 0]?).toList
       | _ => id
-    -- both instances must have produced an output (otherwise the line is not a meaningful comparison)
-    let la ← ia.last
-    let lb ← ib.last
+    -- both instances must have produced an output OF THEIR OWN (a copy does not inherit the original's last output):
+    -- otherwise the line is not a meaningful comparison and nothing is asserted
+    -- "continues like / equals the replay of / reset equals fresh / wrapper equals bare": meaningful only when both
+    -- instances have been fed the same inputs since construction or the last reset (a shrunk case may have lost that)
+    let sameInputs := ["C20.copy-continues", "C20.copy-eq-replay", "C12.reset-eq-fresh", "C20.cache-transparent",
+      "C20.unit-transparent"].contains name
+    let histEq := (ia.hist.map (fun l => l.map V.render)) == (ib.hist.map (fun l => l.map V.render))
+    match (if ia.own && (!sameInputs || histEq) then ia.last else none), (if ib.own then ib.last else none) with
+    | some la, some lb =>
     let ra := renderOut (la.map sel)
     let rb := renderOut (lb.map sel)
     some (report d op { model := s!"{ra} | {rb}", impl := implS, kind := kindName ia.st,
                         clauses := [{ name := name, ok := ra == rb, expected := ra }] })
+    | _, _ => some (report d op { model := implS, impl := implS, kind := kindName ia.st })
   | ["compose", "int-diff", id, x0, xn] => do
     -- C15: integrate(differentiate(x))[n] = x[n] - x[0]
     let inst ← d.get (← id.toNat?)
